@@ -87,8 +87,28 @@ class DeflateDecompressor(SimpleGzipDecompressor):
         super().__init__()
         self.decompressobj = None
         self._pending = b''
+        self._zlib_input = None
 
     def decompress(self, value):
+        if self._zlib_input is not None:
+            # Decoding as zlib has not produced anything yet. A raw deflate
+            # stream may begin with two bytes that pass for a zlib header:
+            # whether it does must not depend on how the data is split.
+            self._zlib_input += value
+
+            try:
+                data = self.decompressobj.decompress(value)
+            except zlib.error:
+                value = self._zlib_input
+                self._zlib_input = None
+                self.decompressobj = zlib.decompressobj(-zlib.MAX_WBITS)
+                return self.decompressobj.decompress(value)
+
+            if data:
+                self._zlib_input = None
+
+            return data
+
         if not self.decompressobj:
             # The 2 byte zlib header is needed to tell zlib from raw deflate
             # but data may come in as a single byte.
@@ -103,9 +123,14 @@ class DeflateDecompressor(SimpleGzipDecompressor):
             if self._is_zlib_header(value):
                 try:
                     self.decompressobj = zlib.decompressobj()
-                    return self.decompressobj.decompress(value)
+                    data = self.decompressobj.decompress(value)
                 except zlib.error:
                     pass
+                else:
+                    if not data:
+                        self._zlib_input = value
+
+                    return data
 
             self.decompressobj = zlib.decompressobj(-zlib.MAX_WBITS)
             return self.decompressobj.decompress(value)
